@@ -61,6 +61,7 @@ func (c16) Classes() []sim.Class {
 			sim.Class{Name: "history", Engine: e, Quick: 4000, Thorough: 150000},
 			sim.Class{Name: "readdir", Engine: e, Quick: 1500, Thorough: 50000},
 			sim.Class{Name: "faults", Engine: e, Quick: 2500, Thorough: 80000},
+			sim.Class{Name: "descriptors", Engine: e, Quick: 300, Thorough: 10000},
 		)
 	}
 	return cs
@@ -277,6 +278,24 @@ func (c16) Run(t *tape.Tape, cfg sim.Config) (res sim.Result) {
 		panic(fmt.Sprintf("harness: instantiate shim: %v", err))
 	}
 	nops := t.Range(5, 40)
+	if cfg.Class == "descriptors" {
+		// many descriptors open at once: the table's bitmask words (64 entries each) fill up,
+		// then holes are punched and refilled: every allocation must be the lowest free number
+		if s.m.root.kids["a"] == nil || s.m.root.kids["a"].dir {
+			f := s.m.newFile()
+			f.data = s.payload(10)
+			if old := s.m.root.kids["a"]; old != nil {
+				os.RemoveAll(filepath.Join(e.root, "a"))
+			}
+			s.m.root.kids["a"] = f
+			os.WriteFile(filepath.Join(e.root, "a"), f.data, 0o644)
+		}
+		for n := t.Range(60, 140); n > 0 && res.Violation == nil; n-- {
+			s.doPathOpen(3, 1, "a", 0, rightRead, 0)
+			res.Steps++
+		}
+		nops = t.Range(20, 60)
+	}
 	for i := 0; i < nops && res.Violation == nil; i++ {
 		s.step(cfg.Class)
 		res.Steps++
@@ -304,6 +323,8 @@ func (s *runState) step(class string) {
 	t := s.t
 	var k int
 	switch class {
+	case "descriptors":
+		k = t.Weighted(8, 8, 1, 0, 0, 0, 0, 0, 3, 0, 0, 0, 1, 0, 0, 0, 0, 0, 0)
 	case "readdir":
 		k = t.Weighted(3, 1, 1, 1, 0, 0, 0, 0, 0, 1, 0, 0, 0, 0, 1, 1, 1, 1, 10)
 	default:
